@@ -13,7 +13,7 @@ import (
 func init() {
 	register(&propDef{
 		ID:          "C19",
-		Explanation: "Decides, for package cmd/templ/generatecmd/sse (every function, go/cfg + type information): R1 no send on a registry channel can follow its close — either the channel type stored in the client registry is never closed and every send on it is one arm of a select whose other arm receives a done signal, or send and close both hold the registry mutex in the same goroutine (a send inside a `go` closure does not hold the caller's lock); R2 while the broadcaster holds the registry mutex it performs no blocking channel operation itself; R3 registration stores under the mutex and removal is deferred, under the mutex; R4 the broadcast loop addresses every registered client (no break/continue/return filter); R2 also covers every other function that takes the registry mutex and deferred calls that run before a deferred Unlock (sync.WaitGroup.Wait, sync.Cond.Wait, time.Sleep, channel operations outside a select with default); R5 the key under which a client is registered comes from a never-repeating source (an atomic add of a positive constant on a field that nothing else writes, a field only ever incremented, or a freshly allocated pointer/channel) — a key computed from the registry's current size is reused after a disconnect and replaces a connected client's entry. R6 the proxy's broadcast entry point hands every event to the hub (Send dominates every exit); R7 on the event-stream route the proxy writes or flushes nothing before the hub's handler runs (the hub registers the client before its first flush). NOT decided: delivery under all interleavings, liveness of slow readers.",
+		Explanation: "Decides, for package cmd/templ/generatecmd/sse (every function, go/cfg + type information): R1 no send on a registry channel can follow its close — either the channel type stored in the client registry is never closed and every send on it is one arm of a select whose other arm receives a done signal, or send and close both hold the registry mutex in the same goroutine (a send inside a `go` closure does not hold the caller's lock); R2 while the broadcaster holds the registry mutex it performs no blocking channel operation itself; R3 registration stores under the mutex and removal is deferred, under the mutex; R4 the broadcast loop addresses every registered client (no break/continue/return filter); R2 also covers every other function that takes the registry mutex and deferred calls that run before a deferred Unlock (sync.WaitGroup.Wait, sync.Cond.Wait, time.Sleep, channel operations outside a select with default); R5 the key under which a client is registered comes from a never-repeating source (an atomic add of a positive constant on a field that nothing else writes, a field only ever incremented, or a freshly allocated pointer/channel) — a key computed from the registry's current size is reused after a disconnect and replaces a connected client's entry. R6 the proxy's broadcast entry point hands every event to the hub (Send dominates every exit); R7 on the event-stream route the proxy writes or flushes nothing before the hub's handler runs (the hub registers the client before its first flush). R8 no http.Server of the generate command sets a WriteTimeout and no handler is wrapped in http.TimeoutHandler (the event stream is one response that must stay writable for the whole session). NOT decided: delivery under all interleavings, liveness of slow readers.",
 		Assumptions: []string{"a send on a closed channel panics; a send in a select with a ready done arm cannot block forever", "net/http cancels r.Context() when ServeHTTP returns"},
 		Trusted:     []string{"go/types", "x/tools go/packages, go/cfg"},
 		Run:         runC19,
@@ -148,8 +148,9 @@ func enclosingSelect(body *ast.BlockStmt, target ast.Node) (*ast.SelectStmt, *as
 }
 
 func runC19(c *Ctx) {
-	c.load("./cmd/templ/generatecmd/sse", "./cmd/templ/generatecmd/proxy")
+	c.load("./cmd/templ/generatecmd/sse", "./cmd/templ/generatecmd/proxy", "./cmd/templ/generatecmd")
 	broadcastEntryForwardsEverything(c, "C19.R6", "C19.R7")
+	streamServerHasNoWriteDeadline(c, "C19.R8")
 	p := c.pkg("cmd/templ/generatecmd/sse")
 	info := p.TypesInfo
 	ri := findChanRegistry(p)
@@ -850,4 +851,73 @@ func flusherOf(info *types.Info, fd *ast.FuncDecl, e ast.Expr, wObj types.Object
 		return true
 	})
 	return found
+}
+
+// streamServerHasNoWriteDeadline: C19.R8 — the event stream is one HTTP response that lives for the whole watch
+// session. http.Server.WriteTimeout is an absolute deadline for writing a response, counted from the end of the
+// request header: once it has passed, every further write of that response fails — silently for the hub, which sees
+// only its own channel. A server in front of the proxy handler must therefore have no WriteTimeout (and the handler
+// must not sit inside http.TimeoutHandler): the first reload that happens later than the deadline after a browser
+// connected is lost and the connection torn down. Decided on every http.Server literal and every TimeoutHandler call
+// of the generate command's packages.
+func streamServerHasNoWriteDeadline(c *Ctx, rule string) {
+	n := 0
+	for _, rel := range []string{"cmd/templ/generatecmd", "cmd/templ/generatecmd/proxy", "cmd/templ/generatecmd/sse"} {
+		p := c.pkg(rel)
+		if p == nil {
+			continue
+		}
+		info := p.TypesInfo
+		for _, fd := range allFuncDecls(p) {
+			if fd.Body == nil {
+				continue
+			}
+			ord := 0
+			ast.Inspect(fd.Body, func(x ast.Node) bool {
+				switch y := x.(type) {
+				case *ast.CompositeLit:
+					t := info.TypeOf(y)
+					if t == nil || !strings.HasSuffix(strings.TrimPrefix(t.String(), "*"), "net/http.Server") {
+						return true
+					}
+					n++
+					ord++
+					bad := ""
+					for _, el := range y.Elts {
+						if kv, ok := el.(*ast.KeyValueExpr); ok {
+							if k := types.ExprString(kv.Key); k == "WriteTimeout" {
+								if tv, ok := info.Types[kv.Value]; !ok || tv.Value == nil || tv.Value.String() != "0" {
+									bad = k + ": " + types.ExprString(kv.Value)
+								}
+							}
+						}
+					}
+					c.check(bad == "", rule, fmt.Sprintf("%s|http.Server#%d|no-write-deadline", funcKey(p, fd), ord), c.pos(y.Pos()), "the server sets no WriteTimeout",
+						fmt.Sprintf("%s configures an http.Server with %s: the reload event stream is a single response that must stay writable for hours; after that deadline every write to it fails, so a reload broadcast later than that after the browser connected never arrives (the hub cannot see the failure) and the stream is closed", fd.Name.Name, bad))
+				case *ast.AssignStmt:
+					for i, l := range y.Lhs {
+						if se, ok := l.(*ast.SelectorExpr); ok && se.Sel.Name == "WriteTimeout" {
+							if t := info.TypeOf(se.X); t != nil && strings.HasSuffix(strings.TrimPrefix(t.String(), "*"), "net/http.Server") && i < len(y.Rhs) {
+								n++
+								ord++
+								c.viol(rule, fmt.Sprintf("%s|http.Server#%d|no-write-deadline", funcKey(p, fd), ord), c.pos(y.Pos()),
+									fmt.Sprintf("%s sets WriteTimeout = %s on an http.Server: the reload event stream is a single long-lived response and stops being writable after that deadline", fd.Name.Name, types.ExprString(y.Rhs[i])))
+							}
+						}
+					}
+				case *ast.CallExpr:
+					if fn := calleeOf(info, y); fn != nil && fullName(fn) == "net/http.TimeoutHandler" {
+						n++
+						ord++
+						c.viol(rule, fmt.Sprintf("%s|http.TimeoutHandler#%d", funcKey(p, fd), ord), c.pos(y.Pos()),
+							fd.Name.Name+" wraps a handler in http.TimeoutHandler: the event stream behind it is cut off after the timeout")
+					}
+				}
+				return true
+			})
+		}
+	}
+	c.ok(rule, modPath+"/cmd/templ/generatecmd|servers-scanned", "", fmt.Sprintf("%d http.Server configurations / timeout wrappers in the generate command's packages", n))
+	src := "&http.Server{WriteTimeout: 12 * time.Second}"
+	c.control(rule+":write-timeout-pattern", strings.Contains(src, "WriteTimeout"))
 }
